@@ -1,7 +1,7 @@
 (* The single place where extraction directives live (trusted base). *)
 From Coq Require Import ExtrOcamlBasic ExtrOcamlString.
 From Coq Require Import ZArith.
-From Dwgrep Require Import IntModel CovModel Cmp Radix Value Words Tree Engine Build Den Scope Simplify ParseInt Escape Cli Lexer Forest Atval Ranges Loc Scon Quiet.
+From Dwgrep Require Import IntModel CovModel Cmp DieCmp Radix Value Words Tree Engine Build Den Scope Simplify ParseInt Escape Cli Lexer Forest Atval Ranges Loc Scon Quiet.
 
 Extraction Blacklist String List Nat Int.
 
@@ -14,6 +14,6 @@ Extraction "extract/out/zwm.ml"
   CovM.w_aset CovM.w_add CovM.w_sub CovM.w_add_cst CovM.w_sub_cst CovM.w_overlap CovM.w_contains_cst
   CovM.w_contains CovM.w_overlaps CovM.w_empty CovM.w_length CovM.w_low CovM.w_high CovM.w_range CovM.w_cmp
   CovM.memb CovM.Invb
-  CmpM.cmp_top CmpM.w_eq CmpM.w_lt CmpM.w_gt CmpM.w_ne CmpM.w_ge CmpM.w_le CmpM.comparable CmpM.cst_lt
+  CmpM.cmp_top CmpM.w_eq CmpM.w_lt CmpM.w_gt CmpM.w_ne CmpM.w_ge CmpM.w_le CmpM.comparable CmpM.cst_lt DieCmpM.die_cmp DieCmpM.cu_cmp
   ValueM.show ValueM.stack_eqb EngineM.run BuildM.build_program DenM.den DenM.den_stream ScopeM.well_scoped SimplifyM.simplify RadixM.show_dec RadixM.show_hex RadixM.show_oct RadixM.show_bin RadixM.read_digits
   ParseIntM.parse_int EscapeM.esc EscapeM.lex_string CliM.cli LexerM.lex_all LexerM.analyse LexerM.parses ForestM.raw_rows ForestM.cooked_rows ForestM.raw_units ForestM.cooked_units AtvalM.at_value RangesM.die_ranges LocM.op_values SconM.run QuietM.quietb QuietM.has_format.
